@@ -25,7 +25,7 @@ ASSUMPTIONS = ['truth models: vf/oracles/tzif_ref.py, vf/oracles/posix_tz_ref.py
                'synthetic TZif data stay within PEP 495\'s assumption (a wall time has at most two pre-images)',
                'rule triples keep the end transition\'s standard-time-of-day inside [0, 24 h) (the K3 domain belongs to C08)']
 MANIFEST = {
-    'technique': 'runtime monitor on tzinfo conversions: round-trip and (wall, fold)-injectivity invariants checked on every probed instant, plus lock-step comparison with independent zone models',
+    'technique': 'runtime monitor on tzinfo conversions: round-trip and (wall, fold)-injectivity invariants checked on every probed instant, plus lock-step comparison with independent zone models; plus the same conversions through shared zone objects from four free-running threads with injected yields (sys.monitoring), compared with the single-threaded outcomes',
     'level_text': 'Hundreds of thousands of UTC instants concentrated around every offset change of real, synthetic and rule-based '
                   'zones are converted by the real tzinfo classes; invariants need no model, truth comes from independent readers.  '
                   'Hit counters on fromutc/utcoffset/tzname/dst prove each class was reached.  Exploration level.',
